@@ -618,7 +618,7 @@ class BatchProxy(object):
         try:
             results = self.__proxy._pyroInvokeBatch(self.__calls, oneway)
         finally:
-            self.__calls = []  # clear for re-use, also when the submission failed (the calls may already have been executed)
+            self.__calls.clear()  # clear for re-use, also when the submission failed (the calls may already have been executed)
         if not oneway:
             return self.__resultsgenerator(results)
 
@@ -627,7 +627,7 @@ class BatchProxy(object):
         try:
             results = self.__proxy._pyroInvokeBatch(self.__calls)
         finally:
-            self.__calls = []  # clear for re-use
+            self.__calls.clear()  # clear for re-use
         return self.__resultsgenerator(results)
 
 
